@@ -3,7 +3,12 @@
 //! Oracles: (1) a naive scan of the original text written here (ground truth) against
 //! `CompressedDocument` and `ReferenceDocument` for every `Document` query, (2) the same after
 //! re-parsing the serialised index, (3) every exported `BitVector` implementation against a plain
-//! `Vec<bool>`, (4) the wavelet trees against a plain symbol vector.
+//! `Vec<bool>`, (4) the wavelet trees against a plain symbol vector, (5) the same naive scan against
+//! other `PsiDocument<SA, ISA, PSI>` combinations than the `CompressedDocument` alias and against
+//! alphabets beyond the u16 symbol width, (6) suffix array / inverse / psi obtained by sorting the
+//! suffixes here against every exported constructor of the building blocks (usize, u32,
+//! from-SA-and-ISA; caller-chosen sampling rates), (7) marker-delimited strings and their
+//! occurrence counts found by a scan against `exemplars*` / `correlate`.
 
 mod bits;
 mod components;
@@ -27,7 +32,13 @@ fn main() {
          non-trivial when it has >= 2 records, a non-empty needle with >= 2 occurrences and a needle with none. Bit vectors up to 50 000 bits: \
          constant, runs aligned to (and one off) 63/64/504/1449/16/128/256/4096, random with density 1/8..7/8, ones or zeros at generated gaps \
          with counts on the sparse-tree and select-sample sizes; non-trivial when >= 127 bits with both values and > 16 set bits. Wavelet-tree \
-         cases are non-trivial with >= 2 distinct symbols and >= 64 symbols.",
+         cases are non-trivial with >= 2 distinct symbols and >= 64 symbols. document-mixes: the same document cases over two of ten other \
+         SA+ISA+PSI combinations (labelled mix:...). document-big-alphabets: every symbol once plus repeats, 1500..9000 code points spread over \
+         u32 or 65 534..72 000 distinct symbols (K on both sides of 65 536), non-trivial with >= 2 records and a needle that occurs. \
+         index-components: texts up to 400 (900) symbols, sampling exponents 0..10, 31, 32, 63, 64, generated ISA sample positions, constrain / \
+         predecessor queries with whole, partial, empty and arbitrary target intervals; non-trivial with >= 8 symbols and >= 2 distinct. \
+         exemplars-correlate: 1..3 documents of marker+word tokens or uniform symbols over 2..120 code points, 1..3 marker pairs (also absent \
+         symbols), min_length 0..7, record selections all / none / generated; non-trivial with >= 2 expected exemplars and a count >= 2.",
     )
     .assume("Document::construct requires a non-empty text and record boundaries that start at 0, increase strictly and stay below the text length (check_record_boundaries); hence no empty records. Invalid lists and the empty text must be refused by both implementations.")
     .assume("Any u32 is a legal symbol (0 and u32::MAX included); the end marker is internal to the index.")
@@ -39,6 +50,10 @@ fn main() {
     .assume("access_rank(len) is None for reference / rrr and Some((false, count)) for sparse / cf_rrr; both are accepted, a set bit or a wrong rank is not.")
     .assume("sparse::BitVector::from_indices is driven with fan-outs 4, 5, 16, 17, 128, 255 (documented range 4..256) and indices strictly below len.")
     .assume("WaveletTree: rank_q(q, x) for x in 0..=len, select_q(q, k) = one past the k-th q (Some(0) for k = 0), None beyond; symbols that do not occur may give None or zero.")
+    .assume("Every SA / ISA / PSI combination of PsiDocument is held to the same Document contract as CompressedDocument (the crate's own tests/psi_with_*.rs instantiate five of them).")
+    .assume("Building blocks: lookups are asserted for indices inside the structure only (0..=len for suffix array and psi; sampled positions for the sampled inverse suffix array, where other positions may answer Err but never a wrong value). Sampling exponents 0..10 must be accepted; 31 / 63 (the largest the u32 / usize constructors can shift by) and 32 / 64 may be refused but, if accepted, must answer correctly. Identical bytes from the usize / u32 / from-SA-and-ISA constructors are recorded as a label, not required.")
+    .assume("Psi::constrain is called as its documentation allows: `range` is the whole suffix-array interval of one symbol (never the end marker's), `into` any closed interval, also empty and spanning several symbols; an empty answer is any pair with first > second. predecessor_sigma_symbols / predecessor_sigma_ranges are judged only when they return Ok(true) ('complete'), as sets, ignoring the end marker (symbol 0).")
+    .assume("exemplars* / correlate are undocumented. Asserted from any reading: count() is the number of occurrences of text() in the documents by a plain scan (for correlate: between the occurrences lying wholly in selected records and those touching a selected record), no text twice, counts never increase along the iteration (callers take(n) the most frequent). Asserted from the callers' use (analogize markers, benches/exemplars.rs) and the implementation's evident intent: the texts are exactly the strings that end with an end marker (or the needle) and are extended to the left until they start with the paired start marker (stop symbol) and have min_length symbols, extensions reaching the start of a document being dropped; the enumeration is complete for every string with a non-zero count (checked in full when the iterator ends, else above the last count seen). exemplars_from_needle is driven with a one-symbol stop; needles of >= 2 symbols that are not palindromes are excluded (suspected defect, counted as exclusion).")
     .pbt(docs::DocQueries)
     .pbt(docs::DocSerialize)
     .pbt(mixes::DocMixes)
